@@ -72,6 +72,7 @@ func c20Class(src, printed string) string {
 
 func c20Hazards() []string {
 	exprs := []string{
+		"- --x ^ 2", "+ ++x ^ y", "- --x ^ -y", "! --x ^ 2", "- --$1 ^ 2", "-(--x) ^ 2", "- -x ^ 2 ^ 3", "+ ++A[1] ^ 2", "- --x ^ 2 - --y ^ 2", "x - --y ^ 2", "x + ++y ^ 2", "- -$i ^ 2", "-x-- ^ 2", "- --x++",
 		"- -x", "+ +x", "! !x", "- --x", "+ ++x", "-(-x)", "- +x", "+ -x", "!(-x)", "x - -y", "x + +y", "x - --y", "x + ++y", "x-- - y", "x++ + y", "x - - -y",
 		"- - -x", "!-x", "-!x", "- -1", "-(-1)", "1 - -1", "2 ^ -x", "-x ^ 2", "(-x) ^ 2", "- -x ^ 2", "x ^ y ^ z", "(x ^ y) ^ z", "!x ~ y", "!(x ~ y)", "x ~ !y",
 		"$- -i", "$-i", "$(-i)", "$i++", "$(i++)", "$$i", "$$i++", "$++i", "$(NF - 1)", "$NF - 1", "-$1", "!$1", "$x^2", "$(x^2)", "$x[1]",
